@@ -1522,10 +1522,10 @@ class DNA(symbolic.Object):
       key = key.id
       return self._decision_by_id[key]
     else:
-      v = self.named_decisions.get(key, None)
-      if v is None:
-        v = self._decision_by_id[key]
-      return v
+      # NOTE: a named decision that is inactive maps to None.
+      if key in self.named_decisions:
+        return self.named_decisions[key]
+      return self._decision_by_id[key]
 
   def get(
       self,
